@@ -74,6 +74,10 @@ def _ck(build):
 
 
 def counter_cases():
+    return blake2_counter_cases() + cipher_counter_cases()
+
+
+def blake2_counter_cases():
     cases = []
     # BLAKE2 byte counters: low word wraps, high word increments; high word wrap (2^64 for s, 2^128 for b) as well
     for which, B, w, kind, mx in (("s", 64, 32, "b2sdyn", 32), ("b", 128, 64, "b2bdyn", 64)):
@@ -114,6 +118,11 @@ def counter_cases():
             for n in (1, B, 2 * B + 1):
                 d = obs_of(hashes.blake2_py(which, pat(5, 3, n), bits // 8, b"", c0))
                 cases.append((["hnew s0 %s %d" % (kind, bits), "hsetctr s0 %d %d" % (t0, t1), "update s0 %s" % P(5, 3, n), "fin s0"], ["-", "-", "-", d], None))
+    return cases
+
+
+def cipher_counter_cases():
+    cases = []
     # cipher block counters at their boundaries (hooks for the 64-bit ones, seek for the 32-bit ones)
     M32 = 0xFFFFFFFF
     for v, kl, nl, bits in (("chacha", 32, 12, 32), ("xchacha", 32, 24, 32), ("chachao", 32, 8, 64), ("salsa", 16, 8, 64), ("xsalsa", 32, 24, 64)):
